@@ -1155,7 +1155,7 @@ def correspondence(ctx):
 _HINT = {'ffs': 'fixed', 'ufs': 'fixed', 'fpm': 'fpm', 'babinet': 'babinet', 'sg': 'sg', 'shifted': 'sg', 'spatial': 'sg',
          'mse': 'cost', 'bgie': 'cost', 'nll': 'cost', 'tanh': 'activation', 'arctan': 'activation', 'softplus': 'activation',
          'sigmoid': 'activation', 'softmax': 'softmax', 'gumbel': 'softmax', 'encoder': 'softmax', 'intensity': 'intensity',
-         'phase': 'phase', 'wavefront': 'intensity', 'modal': 'modes', 'structure': 'dm', 'triple': 'mdft', 'circ': 'dm',
+         'phase': 'phase', 'wavefront': 'intensity', 'modal': 'modes', 'dm_steps': 'dm', 'mdft_terms': 'mdft', 'triple': 'mdft', 'circ': 'dm',
          'pad_crop': 'dm', 'qForSampling': 'fixed', 'live': 'history', 'attribute': 'history'}
 
 
@@ -1168,7 +1168,7 @@ def search(ctx, hints):
         for key, item in _HINT.items():
             if key.lower() in t.lower() and item not in order:
                 order.append(item)
-    if 'gen_structure' in ' '.join(hints.get('failed_theorems', [])):
+    if any(k in ' '.join(hints.get('failed_theorems', [])) for k in ('gen_mdft_terms', 'gen_modal_axes', 'gen_dm_steps')):
         for it in ('dm', 'modes', 'mdft'):
             if it not in order:
                 order.append(it)
